@@ -155,31 +155,13 @@ func checkC11(w *World, r *Report) {
 	r.Assumptions = []string{"handlers only observe the context through the Context interface"}
 	d := analyseDispatch(w)
 	r.Analysed(FuncName(d.fn))
-	cf := d.cf
 
-	// ---- C11.1
-	ru := r.Rule("C11.1", "scrub before every special handler: on every path to a call of Router.noRoute/noMethod/autoOptions/tsrRedirect the context's params are truncated to 0, route is nil and tsr is false, with no later write that could undo it", 4)
-	ru.Idiom("*c.params = (*c.params)[:0]; c.route = nil; c.tsr = false", "intervening lookup(..., c, true): lazy lookups only reslice params and clear tsr")
+	checkScrubRule(w, r, d, "C11.1")
 	fields := make([]*types.Var, 0, len(d.scopeOfField))
 	for f := range d.scopeOfField {
 		fields = append(fields, f)
 	}
 	sort.Slice(fields, func(i, j int) bool { return fields[i].Name() < fields[j].Name() })
-	for _, f := range fields {
-		calls := d.specialCalls[f]
-		if len(calls) == 0 {
-			ru.Fail("call of Router."+f.Name(), w.Pos(d.fn.Pos()), "every special handler wrapped in New is dispatched by ServeHTTP", "no call through this field in ServeHTTP")
-			continue
-		}
-		for _, c := range calls {
-			st := d.state[c]
-			okk := st.f[cf.field("params")].kind == kScrub && st.f[cf.field("route")].kind == kScrub && st.f[cf.field("tsr")].kind == kScrub
-			ru.Check("call of Router."+f.Name(), w.Pos(c.Pos()), "params empty, route nil, tsr false at the call", okk, cf.describe(st, "params", "route", "tsr"))
-		}
-	}
-	for _, c := range d.otherCalls {
-		ru.Fail("handler call through "+valStr(c.Call.Value), w.Pos(c.Pos()), "the context is only handed to the route chain or to a special handler prepared in New", "unclassified handler call receiving the request context")
-	}
 
 	// ---- C11.2 (also C13.2)
 	checkScopePairing(w, r, d, "C11.2")
@@ -224,6 +206,36 @@ func checkC11(w *World, r *Report) {
 
 	// ---- C11.4
 	checkAllowLoops(w, r, d)
+}
+
+// checkScrubRule is rule C11.1; it also runs under C19 and C20, whose resolver selection (Context.ClientIP uses the
+// router-wide resolver in every handler other than a route's) relies on special handlers seeing no route.
+func checkScrubRule(w *World, r *Report, d *dispatchInfo, id string) {
+	cf := d.cf
+	// ---- C11.1
+	ru := r.Rule(id, "scrub before every special handler: on every path to a call of Router.noRoute/noMethod/autoOptions/tsrRedirect the context's params are truncated to 0, route is nil and tsr is false, with no later write that could undo it", 4)
+	ru.Idiom("*c.params = (*c.params)[:0]; c.route = nil; c.tsr = false", "intervening lookup(..., c, true): lazy lookups only reslice params and clear tsr")
+	fields := make([]*types.Var, 0, len(d.scopeOfField))
+	for f := range d.scopeOfField {
+		fields = append(fields, f)
+	}
+	sort.Slice(fields, func(i, j int) bool { return fields[i].Name() < fields[j].Name() })
+	for _, f := range fields {
+		calls := d.specialCalls[f]
+		if len(calls) == 0 {
+			ru.Fail("call of Router."+f.Name(), w.Pos(d.fn.Pos()), "every special handler wrapped in New is dispatched by ServeHTTP", "no call through this field in ServeHTTP")
+			continue
+		}
+		for _, c := range calls {
+			st := d.state[c]
+			okk := st.f[cf.field("params")].kind == kScrub && st.f[cf.field("route")].kind == kScrub && st.f[cf.field("tsr")].kind == kScrub
+			ru.Check("call of Router."+f.Name(), w.Pos(c.Pos()), "params empty, route nil, tsr false at the call", okk, cf.describe(st, "params", "route", "tsr"))
+		}
+	}
+	for _, c := range d.otherCalls {
+		ru.Fail("handler call through "+valStr(c.Call.Value), w.Pos(c.Pos()), "the context is only handed to the route chain or to a special handler prepared in New", "unclassified handler call receiving the request context")
+	}
+
 }
 
 // checkScopePairing: the scope constant stored into the context before each special handler call equals the scope the
